@@ -30,7 +30,7 @@ COMPONENTS = {"real": ["gunicorn.http.wsgi.Response.start_response/process_heade
               "stub": ["peer + network (SimSock)", "application (generated program)"]}
 
 CLASSES = {"CR": "\r", "LF": "\n", "CRLF": "\r\nX-Injected: 1", "NUL": "\0", "VT": "\x0b", "DEL": "\x7f",
-           "ESC": "\x1b", "obs": "\xe9", "uni": "Ā", "SP": " ", "HTAB": "\t", "colon": ":", "LFLF": "\n\n"}
+           "ESC": "\x1b", "obs": "\xe9", "uni": "Ā", "SP": " ", "HTAB": "\t", "colon": ":", "LFLF": "\n\n", "COLONSP": ": x", "COLONSPHOP": ": chunked"}
 HOP = ["Connection", "Keep-Alive", "Proxy-Authenticate", "Proxy-Authorization", "TE", "Trailers", "Transfer-Encoding",
        "Upgrade", "Server", "Date", "connection", "transfer-encoding"]
 DANGEROUS = ("\r", "\n", "\0")
@@ -60,6 +60,8 @@ def make_case(index, rng, tier):
     elif field == "name":
         i = rng.randrange(len(headers))
         headers[i][0] = inject(rng, headers[i][0], cls) if rng.randrange(6) else ""
+        if rng.randrange(8) == 0:
+            headers[i][0] = rng.choice(["Transfer-Encoding: chunked", "Connection: close, X", "X-A: b", "Content-Length: 0\r\nX"])
     elif field == "value":
         i = rng.randrange(len(headers))
         headers[i][1] = inject(rng, headers[i][1], cls)
